@@ -65,16 +65,15 @@ func (l Location) GetPositions() ([]int, error) {
 	}
 }
 
-// True/false this location is on the reverse strand
+// True/false this location is on the reverse strand. The strand is what the complement operator says:
+// the order of the positions is no evidence, because a feature that spans the origin of a circular
+// genome is written join(2307..3215,1..1623) and lies on the forward strand
 func (l Location) IsReverse() (bool, error) {
-	pos, err := l.GetPositions()
+	_, err := l.GetPositions()
 	if err != nil {
 		return true, err
 	}
-	if pos[0] > pos[len(pos)-1] {
-		return true, nil
-	}
-	return false, nil
+	return strings.Contains(l.Representation, "complement("), nil
 }
 
 // // 5'-most position relative to the forward strand
